@@ -40,7 +40,7 @@ def quantileSorted (s : List Rat) (q : Rat) : Rat :=
   let n := s.length
   let pos := q * ((n : Rat) - 1)
   let lo := pos.floor.toNat
-  let a := s.getD lo 0
+  let a := s.getD (min lo (n - 1)) 0
   let b := s.getD (min (lo + 1) (n - 1)) 0
   a + (pos - (lo : Rat)) * (b - a)
 
